@@ -31,6 +31,9 @@ def run(ctx):
     check_entities(ctx, prog, f)
     import nullret
     nullret.check(ctx, prog, 'C07', ('Xml.cpp',))
+    import litread
+    litread.check(ctx, prog, 'C07', ('Xml.cpp',))
+    litread.selftest(ctx)
     import C08
     n = C08.check_fixed_buffers(ctx, prog, 'C07.outbuf', only_file='Xml.cpp')
     ctx.floor('C07.outbuf', n, 1)
